@@ -457,3 +457,36 @@ def edge_cover_paths(inits, edges, max_paths=None):
         if max_paths and len(paths) >= max_paths:
             break
     return paths
+
+
+def extract_prints(out, tag):
+    """All PrintT values of the form << "tag", ... >> in TLC output (may span lines), parsed."""
+    vals = []
+    pos = 0
+    pat = re.compile(r'<<\s*"%s"' % re.escape(tag))
+    while True:
+        m = pat.search(out, pos)
+        if not m:
+            break
+        i = m.start()
+        depth = 0
+        j = i
+        while j < len(out):
+            if out.startswith("<<", j):
+                depth += 1
+                j += 2
+                continue
+            if out.startswith(">>", j):
+                depth -= 1
+                j += 2
+                if depth == 0:
+                    break
+                continue
+            if out[j] == '"':
+                j += 1
+                while out[j] != '"':
+                    j += 2 if out[j] == "\\" else 1
+            j += 1
+        vals.append(parse_value(out[i:j]))
+        pos = j
+    return vals
